@@ -80,6 +80,16 @@ def gen_tree(rng, rich=True):
     add("plain/two.html", "file")
     add("plain/nest", "dir")
     add("plain/nest/three.css", "file")
+    # a link-only-to-files tree (installed twice / overwritten by the files of "over" in the directed scenarios)
+    add("relinks", "dir")
+    add("relinks/f.txt", "file")
+    add("relinks/fl", "link", target="f.txt")
+    add("relinks/dg", "link", target="../lib/later.so")
+    add("relinks/ab", "link", target="/usr/lib/vt-nx/later.so")
+    add("over", "dir")
+    add("over/fl", "file")
+    add("over/dg", "file")
+    add("over/ab", "file")
     if rich:
         # symlinks (only in a separate directory and at the top, so that "plain"/"docs" stay link free most times)
         add("lnk", "link", target="README")
@@ -237,8 +247,10 @@ def gen_request(rng, eapi, tree, scope, cwd, image_state, allow_chown=True, only
             args = []
     elif h == "dosym":
         img_dirs = ["/" + p for p, s in image_state.items() if s["type"] == "dir"]
-        srcs = ["../lib/libvt.so.1", "tool", "/usr/lib/libvt.so.1", "/usr/share/vt/data", "/opt/vt/bin/prog", "../..",
-                "/usr//lib/./vt/../vt/x", "/", "/usr/bin/tool", "a/b"]
+        # absolute targets never name a path whose parent directory exists on the build host (a helper that wrongly
+        # wrote through such a link must not be able to drop files there); @OUT@ is a watched scratch directory
+        srcs = ["../lib/libvt.so.1", "tool", "/usr/lib/vt-nx/libvt.so.1", "/usr/share/vt-nx/data", "/opt/vt-nx/bin/prog",
+                "../..", "/usr//lib/./vt-nx/../vt-nx/x", "/", "/usr/libexec/vt-nx/tool", "a/b", "@OUT@/elsewhere"]
         names = ["/usr/bin/tool", "/usr/bin/vt-" + rng.choice(WORDS), "/opt/vt/cur", "usr/lib/vt/link", "/lnk",
                  "/usr/share/vt/" + rng.choice(WORDS), "/a//b/c", "top"]
         src, name = rng.choice(srcs), rng.choice(names)
@@ -269,3 +281,89 @@ def gen_request(rng, eapi, tree, scope, cwd, image_state, allow_chown=True, only
             args = ["/usr/bin/not-in-image", "/usr/bin/hl"]
     req["args"] = args
     return req
+
+
+# ---------------------------------------------------------------------------------------------------------
+# directed multi-step scenarios: a later install helper targets an image path that currently holds a symlink
+
+PF = "vtpkg-1.2-r3"
+OVER_SCOPE = {"desttree": "/usr", "insdesttree": "/usr/share/vt", "exedesttree": "/usr/libexec/vt", "docdesttree": "",
+              "insopts": "-m0644", "diropts": "-m0755", "exeopts": "-m0755", "libopts": "-m0644", "libdir": "lib"}
+VICTIMS = [("doins", "README", "/usr/share/vt/README"), ("dobin", "prog", "/usr/bin/prog"),
+           ("dosbin", "prog", "/usr/sbin/prog"), ("dolib.so", "libvt.so.1", "/usr/lib/libvt.so.1"),
+           ("dolib.a", "libvt.a", "/usr/lib/libvt.a"), ("doexe", "tool.sh", "/usr/libexec/vt/tool.sh"),
+           ("dodoc", "ChangeLog", "/usr/share/doc/%s/ChangeLog" % PF), ("doinitd", "init", "/etc/init.d/init"),
+           ("doconfd", "conf", "/etc/conf.d/conf"), ("doinfo", "vt.info", "/usr/share/info/vt.info")]
+
+
+def _relpath(target, start_dir):
+    a, b = [x for x in target.split("/") if x], [x for x in start_dir.split("/") if x]
+    i = 0
+    while i < min(len(a), len(b)) and a[i] == b[i]:
+        i += 1
+    return "/".join([".."] * (len(b) - i) + a[i:]) or "."
+
+
+OVER_VARIANTS = ["dosym-then-file", "tree-twice", "dosym-then-file", "links-twice", "dosym-then-file", "tree-then-files",
+                 "dosym-then-file"]
+
+
+def overwrite_script(rng, eapi, variant=None):
+    """-> (variant name, list of requests).  Uses the fixed names of gen_tree().
+    The tree variants need EAPI >= 4 (doins installs symlinks as symlinks)."""
+    e = int(eapi)
+    sc = dict(OVER_SCOPE)
+    sc["insopts"] = rng.choice(["-m0644", "-m0644", "-m0600", "-m0640", "--mode=0444"])
+    sc["exeopts"] = rng.choice(["-m0755", "-m0700", "-m0555"])
+
+    def rq(helper, args, **over):
+        s = dict(sc)
+        s.update(over)
+        return {"helper": helper, "eapi": str(eapi), "scope": s, "nonfatal": rng.random() < 0.5, "args": args}
+
+    variants = ["dosym-then-file"] * 5
+    if e >= 4:
+        variants += ["tree-twice", "links-twice", "tree-then-files", "tree-twice", "tree-then-files"]
+    v = variant if variant in variants else rng.choice(variants)
+    if v == "tree-twice":
+        # the second run installs files, a live, a relative dangling and an absolute dangling symlink over themselves
+        return v, [rq("doins", ["-r", "relinks"]), rq("doins", ["-r", "relinks"])]
+    if v == "links-twice":
+        return v, [rq("doins", ["dang", "lnk", "README"]), rq("doins", ["lnk", "dang"])]
+    if v == "tree-then-files":
+        h = rng.choice(["doins", "doins", "doexe", "dodoc"])
+        into = "/usr/share/vt/relinks"
+        first = rq("doins", ["-r", "relinks"])
+        files = rng.sample(["over/dg", "over/fl", "over/ab"], rng.randrange(1, 4))
+        if h == "doins":
+            return v, [first, rq("doins", files, insdesttree=into)]
+        if h == "doexe":
+            return v, [first, rq("doexe", files, exedesttree=into)]
+        # dodoc: put the tree where dodoc installs to
+        return v, [rq("doins", ["-r", "relinks"], insdesttree="/usr/share/doc/" + PF),
+                   rq("dodoc", files, docdesttree="relinks")]
+    helper, fname, path = rng.choice(VICTIMS)
+    linkdir = path.rsplit("/", 1)[0]
+    kind = rng.choice(["rel-dangling", "rel-dangling-samedir", "abs-out", "abs-image-style", "rel-live", "abs-r"])
+    reqs = []
+    if kind == "rel-dangling":
+        reqs.append(rq("dosym", ["../nowhere/%s" % rng.choice(WORDS), path]))
+    elif kind == "rel-dangling-samedir":
+        reqs.append(rq("dosym", ["ghost-" + rng.choice(WORDS), path]))
+    elif kind == "abs-out":
+        reqs.append(rq("dosym", ["@OUT@/victim-" + rng.choice(WORDS), path]))
+    elif kind == "abs-image-style":
+        reqs.append(rq("dosym", ["/usr/lib/vt-nx/" + rng.choice(WORDS), path]))
+    elif kind == "abs-r":
+        if e >= 8:
+            reqs.append(rq("dosym", ["-r", "/usr/lib/vt-nx/" + rng.choice(WORDS), path]))
+        else:
+            reqs.append(rq("dosym", [_relpath("/usr/lib/vt-nx/x", linkdir), path]))
+    else:
+        # a live link: its target is installed first
+        reqs.append(rq("doins", ["vt.h"]))
+        reqs.append(rq("dosym", [_relpath("/usr/share/vt/vt.h", linkdir), path]))
+    reqs.append(rq(helper, [fname]))
+    if rng.random() < 0.3:
+        reqs.append(rq(helper, [fname]))  # and once more over the regular file
+    return v + ":" + kind, reqs
